@@ -1,7 +1,7 @@
 (* C02 - constructors denote exactly the angle and vector they are given.  Pinned theorems only. *)
 From Coq Require Import ZArith List Bool Reals Lra.
 From Flocq Require Import Core BinarySingleNaN.
-Require Import GV.FloatBase GV.FloatLemmas GV.AngleM GV.AngleProofs GV.GeonumM GV.GeonumProofs GV.NewProofs GV.CtorProofs GV.ClosureProofs GV.SumUpper GV.PiBounds GV.TrigProofs GV.DotValue GV.DistValue GV.DirProofs GV.SumDir GV.ProdProofs GV.CartCtor GV.Atan2Ideal.
+Require Import GV.FloatBase GV.FloatLemmas GV.AngleM GV.AngleProofs GV.GeonumM GV.GeonumProofs GV.NewProofs GV.CtorProofs GV.ClosureProofs GV.SumUpper GV.PiBounds GV.TrigProofs GV.DotValue GV.DistValue GV.DirProofs GV.SumDir GV.ProdProofs GV.CartCtor GV.Atan2Ideal GV.RealPi.
 Open Scope R_scope.
 
 (* k quarter turns written as Angle::new(k, 2.0): exactly blade k, remainder 0 *)
@@ -131,3 +131,20 @@ Print Assumptions C02_new_direction.
 Theorem C02_atan2_premise_inhabited : exists L : libm, atan2_acc L (/ 1125899906842624).
 Proof. exists ideal_libm2. destruct ideal2_hyps as (_ & _ & H & _). exact H. Qed.
 Print Assumptions C02_atan2_premise_inhabited.
+
+(* the relation to the REAL pi: the computed total fl(fl(p*PI)/d) is the real p*pi/d within 5e-16 relative, and
+   Angle::new(p, d) on the general path denotes p*pi/d modulo whole turns (J >= 0 of them: negative angles are
+   lifted forward) within 1e-10 + 3e-14 + |t|*2e-15 - for |d| >= 2^-500 *)
+Theorem C02_total_real_pi : forall p d, fin (total_angle p d) -> bpow radix2 (-500) <= Rabs (R_ d) ->
+  Rabs (R_ (total_angle p d) - R_ p * Rtrigo1.PI / R_ d)
+    <= 5 / 10000000000000000 * Rabs (R_ (total_angle p d)) + bpow radix2 (-570).
+Proof. exact total_real_pi. Qed.
+Print Assumptions C02_total_real_pi.
+
+Theorem C02_new_real_pi : forall p d, fast_path p d = false ->
+  fin (total_angle p d) -> Rabs (R_ (total_angle p d)) <= bpow radix2 42 -> bpow radix2 (-500) <= Rabs (R_ d) ->
+  exists J : Z, (0 <= J)%Z /\
+    Rabs (dirR (new p d) - (R_ p * Rtrigo1.PI / R_ d + 2 * Rtrigo1.PI * IZR J))
+      <= R_ eps10 + 3 / 100000000000000 + Rabs (R_ (total_angle p d)) * (2 / 1000000000000000).
+Proof. exact new_real_pi. Qed.
+Print Assumptions C02_new_real_pi.
